@@ -238,7 +238,7 @@ pub fn run(args: &Args) -> i32 {
     rec.assume("expected verdict for weight descriptions comes from the property's rule (sum completes to a power of two, depth <= 11) as implemented by zspec::huf::weights_to_lengths; libzstd is stricter on some vectors and is consulted only through whole frames produced by the compressor");
 
     // ---------------- encoder side: every alphabet size x rank orders x placements of unused symbols
-    let reps = args.vol(3, 40);
+    let reps = args.vol(8, 120);
     let sizes: Vec<(usize, u64)> = (2..=256usize).flat_map(|n| (0..reps).map(move |k| (n, k))).collect();
     sizes.par_iter().for_each(|&(nsym, k)| {
         let mut r = Rng::for_case(args.seed, 13, (nsym as u64) << 16 | k);
@@ -313,7 +313,7 @@ pub fn run(args: &Args) -> i32 {
     }
     rec.count("direct_weight_vectors_enumerated", total);
     // sample of longer vectors, direct (up to 128 weights) and FSE compressed (up to 255), valid and invalid
-    let n = args.vol(30_000, 2_000_000);
+    let n = args.vol(150_000, 6_000_000);
     par_cases(&rec, 131, n, |_, r| {
         rec.eval();
         // start from a valid length assignment, then maybe damage it
